@@ -310,7 +310,9 @@ impl Axecutor {
             }
 
             // Otherwise, we resize the brk section to the new size
-            let new_length = brk - ax.state.syscalls.brk_start;
+            let new_length = brk
+                .checked_sub(ax.state.syscalls.brk_start)
+                .ok_or_else(|| AxError::from("brk: the requested break lies below the start of the heap"))?;
             ax.mem_resize_section(ax.state.syscalls.brk_start, new_length)?;
 
             ax.state.syscalls.brk_length = new_length;
